@@ -8,10 +8,12 @@
 (*     as a PROGRAM for harness/drv_pools.  Results come from the real     *)
 (*     run; `aux` carries only what names the next slot / prunes pointless *)
 (*     operations, plus the code-shaped bookkeeping of the W* invariants.  *)
-(*  TabInit/TabNext + EmitTab - the streaming decision tables: one program *)
-(*     per configuration with every operation of the table.                *)
-(*  LimInit/LimNext + EmitLim - scripted programs that fill every pool     *)
-(*     class beyond its retention limit and drain it again.                *)
+(*  TabInit + EmitTab - the streaming decision tables: one program per     *)
+(*     configuration with every operation of the table.                    *)
+(*  LimInit + EmitLim - scripted programs that fill every pool class       *)
+(*     beyond its retention limit and drain it again.                      *)
+(*  AllInit = all of the above in one TLC run (the family is a variable    *)
+(*     fixed in the initial state).                                        *)
 (*  Design level (code-shaped variants against the stated properties; TLC  *)
 (*  must REFUTE each, the counterexample is printed as WITNESS and         *)
 (*  replayed on the real code):                                            *)
@@ -22,11 +24,15 @@
 (***************************************************************************)
 EXTENDS Pools, TLC, Json
 
-CONSTANTS Family,     \* "ngdp" | "tl" | "bbp" | "zcp" | "sized" | "zce" | "zcr" | "zcc" | "str" | "bg"
-          D,          \* maximal number of enumerated operations
+CONSTANTS Fams,       \* the families of this run: subset of {"ngdp", "tl", "bbp", "zcp", "sized", "zce", "zcr", "zcc", "str", "bg",
+                      \*                                          "stream", "limits"}
+          F4, F5,     \* families enumerated to depth 4 / 5 (all others: 3)
           Wide        \* TRUE: the full alphabets / grids (thorough tier)
 
-VARIABLES cfg, hist, aux
+VARIABLES Family,     \* the family of this behaviour (chosen in the initial state, then constant)
+          cfg, hist, aux
+
+D == IF Family \in F5 THEN 5 ELSE IF Family \in F4 THEN 4 ELSE 3
 
 RECURSIVE SetToSeqM(_)
 SetToSeqM(S) == IF S = {} THEN <<>> ELSE LET x == CHOOSE y \in S : TRUE IN <<x>> \o SetToSeqM(S \ {x})
@@ -209,9 +215,11 @@ Aux0 == CASE IsPool -> PoolAux0 [] Family = "zce" -> ZceAux0 [] Family = "zcc" -
 AuxNext(e) == CASE IsPool -> PoolAuxNext(aux, e) [] Family = "zce" -> ZceAuxNext(aux, e) [] Family = "zcc" -> ZccAuxNext(aux, e)
                 [] Family = "bg" -> BgAuxNext(aux, e) [] OTHER -> aux
 
-GenInit == cfg \in Cfgs /\ hist = <<>> /\ aux = Aux0
-GenNext == \E e \in Ops : /\ Enabled(e)
-                          /\ hist' = Append(hist, e) /\ aux' = AuxNext(e) /\ cfg' = cfg
+Enumerated == {"ngdp", "tl", "bbp", "zcp", "sized", "zce", "zcr", "zcc", "str", "bg"}
+GenInit == Family \in Fams \cap Enumerated /\ cfg \in Cfgs /\ hist = <<>> /\ aux = Aux0
+GenNext == /\ Family \in Enumerated
+           /\ \E e \in Ops : /\ Enabled(e)
+                             /\ hist' = Append(hist, e) /\ aux' = AuxNext(e) /\ cfg' = cfg /\ Family' = Family
 Constr == Len(hist) <= D
 
 KindOf == CASE Family \in {"zce", "zcr"} -> "zc" [] OTHER -> Family
@@ -224,7 +232,7 @@ Suffix == CASE IsPool -> <<[op |-> "check"]>>
             [] OTHER -> <<>>
 Program == [kind |-> KindOf, cfg |-> cfg, keys |-> <<1, 2>>, ops |-> Prefix \o hist \o Suffix]
 \* (TLC evaluates invariants also on the successors it then discards by the CONSTRAINT, hence the upper bound)
-Emit == (Len(hist) >= 1 /\ Len(hist) <= D) => PrintT(<<"PROGRAM", ToJson(Program)>>)
+Emit == (Family \in Enumerated /\ Len(hist) >= 1 /\ Len(hist) <= D) => PrintT(<<"PROGRAM", ToJson(Program)>>)
 
 \* ---- design-level refutations ----------------------------------------------------
 Witness(tag) == PrintT(<<"WITNESS", ToJson([inv |-> tag, program |-> Program])>>)
@@ -242,9 +250,8 @@ StreamOps ==
        [op |-> "vchunks", chunks |-> <<>>], [op |-> "vchunks", chunks |-> <<<<1>>, <<2, 3>>>>]>>
   \o SetToSeqM({[op |-> "cstream", size |-> sz, marks |-> mk, ask |-> <<0, 1, 7>>] : sz \in {<<>>, <<0>>, <<5>>, <<6>>}, mk \in {<<>>, <<0, 7>>, <<1, 1>>}})
   \o SetToSeqM({[op |-> "sstats", cp |-> cp, tc |-> tc, bp |-> 5, cv |-> cv] : cp \in {0, 2}, tc \in {<<>>, <<0>>, <<3>>}, cv \in {0, 3}})
-TabInit == cfg \in StreamCfgs /\ hist = <<>> /\ aux = NoCfg
-TabNext == UNCHANGED <<cfg, hist, aux>>
-EmitTab == (hist = <<>>) => PrintT(<<"PROGRAM", ToJson([kind |-> "stream", cfg |-> cfg, ops |-> StreamOps])>>)
+TabInit == Family = "stream" /\ "stream" \in Fams /\ cfg \in StreamCfgs /\ hist = <<>> /\ aux = NoCfg
+EmitTab == (Family = "stream") => PrintT(<<"PROGRAM", ToJson([kind |-> "stream", cfg |-> cfg, ops |-> StreamOps])>>)
 
 \* ---- retention limits: fill a class beyond its limit, then drain it ------------------------
 Rep(e, n) == [i \in 1..n |-> e]
@@ -255,7 +262,9 @@ LimPrograms ==
   \cup {LimProg("tl", NoCfg, p[1], p[2], 10) : p \in {<<16384, 100>>, <<262144, 20000>>, <<300000, 300000>>}}
   \cup {LimProg("bbp", [api |-> a], p[1], p[2], p[3]) : a \in {"obj", "tls"}, p \in {<<1000, 1000>> \o <<34>>, <<2000, 2000>> \o <<18>>, <<70000, 70000>> \o <<6>>}}
   \cup {LimProg("zcp", NoCfg, 2048, 2048, 34), LimProg("zcp", NoCfg, 1000, 1000, 2), LimProg("zcp", NoCfg, 67108865, 67108865, 2)}
-LimInit == cfg = NoCfg /\ hist = <<>> /\ aux = NoCfg
-LimNext == UNCHANGED <<cfg, hist, aux>>
-EmitLim == (hist = <<>>) => \A p \in LimPrograms : PrintT(<<"PROGRAM", ToJson(p)>>)
+LimInit == Family = "limits" /\ "limits" \in Fams /\ cfg = NoCfg /\ hist = <<>> /\ aux = NoCfg
+EmitLim == (Family = "limits") => \A p \in LimPrograms : PrintT(<<"PROGRAM", ToJson(p)>>)
+
+\* everything in one run: the enumerated families, the tables, the scripts (GenNext has no step for the last two)
+AllInit == GenInit \/ TabInit \/ LimInit
 =============================================================================
